@@ -1,4 +1,1320 @@
-//! C19 monitor (not written yet).
-use crate::ctx::Ctx;
+//! C19 — all binding generators are total, deterministic and closed on checked programs.
+//!
+//! For every type-checked program each of the JavaScript, TypeScript, Motoko and Rust generators is
+//! run under `catch` (no panic), twice (same output), and the output is checked for closure:
+//!   JS   — evaluated by node (as in C17; definitions-only outputs are wrapped into a factory);
+//!   Rust — parsed with `syn`: referenced single-identifier type names are defined, one fn per method;
+//!   TS / Motoko — NO compiler in this sandbox: a lexer written from each language's lexical grammar
+//!          (`bind_lex`) feeds (i) a closure check on identifiers in type position and the method
+//!          list of the service type, (ii) the injection differentials: hostile doc comments must not
+//!          change the non-comment token stream, hostile names may only change string payloads.
+use super::c17::bind_js::*;
+use super::c17::bind_lex::*;
+use super::c17::bind_prog::*;
+use super::c17::bind_rs::*;
+use super::c17::{load_error_sig, JsBatch};
+use crate::ctx::{catch, Ctx};
+use crate::model::misc::label_hash;
+use crate::model::RType;
+use crate::rng::{hash_str, Rng};
+use candid_parser::bindings::{javascript, motoko, rust, typescript};
+use serde_json::{json, Value};
+use std::collections::{BTreeMap, BTreeSet};
 
-pub fn run(_ctx: &mut Ctx) {}
+fn clip(s: &str, n: usize) -> String {
+    if s.len() <= n {
+        s.to_string()
+    } else {
+        let mut k = n;
+        while !s.is_char_boundary(k) {
+            k -= 1;
+        }
+        format!("{}…(+{} bytes)", &s[..k], s.len() - k)
+    }
+}
+
+pub struct Outputs {
+    pub js: Option<String>,
+    pub ts: Option<String>,
+    pub mo: Option<String>,
+    /// (target, source)
+    pub rs: Vec<(String, String)>,
+}
+
+fn rust_config() -> rust::Config {
+    use std::str::FromStr;
+    rust::Config::new(candid_parser::configs::Configs::from_str("").unwrap())
+}
+
+fn rust_external(target: &str) -> rust::ExternalConfig {
+    let mut e = rust::ExternalConfig::default();
+    e.0.insert("target".to_string(), target.to_string());
+    e
+}
+
+/// Run one generator twice; report panic / nondeterminism; return the output.
+fn twice(ctx: &mut Ctx, lang: &str, pc: &ProgramCase, f: &dyn Fn() -> String) -> Option<String> {
+    let a = match catch(f) {
+        Ok(s) => s,
+        Err(p) => {
+            ctx.violation(
+                &format!("{lang}|panic|{}", p.sig()),
+                &format!("{lang} generator panicked on a type-checked program: {}", p.message),
+                json!({"origin": pc.origin, "did": clip(&pc.text, 6000)}),
+            );
+            return None;
+        }
+    };
+    match catch(f) {
+        Ok(b) => {
+            if a != b {
+                ctx.violation(
+                    &format!("{lang}|nondeterministic-output"),
+                    "two calls on the same program returned different output",
+                    json!({"origin": pc.origin, "did": clip(&pc.text, 6000), "first": clip(&a, 3000), "second": clip(&b, 3000)}),
+                );
+            }
+        }
+        Err(p) => {
+            ctx.violation(
+                &format!("{lang}|panic-on-second-call|{}", p.sig()),
+                &format!("{lang} generator panicked on the second call: {}", p.message),
+                json!({"origin": pc.origin, "did": clip(&pc.text, 6000)}),
+            );
+        }
+    }
+    ctx.count(&format!("generated:{lang}"));
+    Some(a)
+}
+
+pub fn motoko_applicable(pc: &ProgramCase) -> bool {
+    pc.method_labels.iter().all(|m| is_ident(m))
+}
+
+pub fn generate_all(ctx: &mut Ctx, pc: &ProgramCase, ck: &Checked, rust_targets: &[&str]) -> Outputs {
+    let js = twice(ctx, "js", pc, &|| javascript::compile(&ck.env, &ck.actor));
+    let ts = twice(ctx, "ts", pc, &|| typescript::compile(&ck.env, &ck.actor, &ck.prog));
+    let mo = if motoko_applicable(pc) {
+        twice(ctx, "motoko", pc, &|| motoko::compile(&ck.env, &ck.actor, &ck.prog))
+    } else {
+        ctx.count("excluded:motoko-non-identifier-method-name");
+        None
+    };
+    let mut rs = Vec::new();
+    for t in rust_targets {
+        let cfg = rust_config();
+        let out = twice(ctx, &format!("rust-{t}"), pc, &|| {
+            rust::compile(&cfg, &ck.env, &ck.actor, &ck.prog, rust_external(t)).0
+        });
+        if let Some(o) = out {
+            rs.push((t.to_string(), o));
+        }
+    }
+    Outputs { js, ts, mo, rs }
+}
+
+// ---------------------------------------------------------------------------------------------
+// TypeScript structure
+
+const TS_KEYWORDS: &[&str] = &[
+    "export", "type", "interface", "extends", "declare", "const", "import", "from", "typeof",
+];
+const TS_BUILTINS: &[&str] = &[
+    "bigint", "number", "string", "boolean", "null", "undefined", "any", "never", "Array", "Uint8Array", "Uint16Array",
+    "Uint32Array", "BigUint64Array", "Int8Array", "Int16Array", "Int32Array", "BigInt64Array", "unknown", "void",
+    "object",
+];
+
+fn is_p(t: &Tok, s: &str) -> bool {
+    t.kind == Kind::Punct && t.text == s
+}
+fn is_i(t: &Tok, s: &str) -> bool {
+    t.kind == Kind::Ident && t.text == s
+}
+
+/// index of the token closing the bracket opened at `open` (same bracket characters only)
+fn matching(code: &[Tok], open: usize, o: &str, c: &str) -> Option<usize> {
+    let mut depth = 0usize;
+    for (i, t) in code.iter().enumerate().skip(open) {
+        if is_p(t, o) {
+            depth += 1;
+        } else if is_p(t, c) {
+            depth -= 1;
+            if depth == 0 {
+                return Some(i);
+            }
+        }
+    }
+    None
+}
+
+/// keys (decoded) of the object type whose `{` is at `open`, at nesting depth 1
+fn ts_block_keys(code: &[Tok], open: usize) -> Option<Vec<String>> {
+    let close = matching(code, open, "{", "}")?;
+    let mut keys = Vec::new();
+    let mut depth = 0i32;
+    for i in open..=close {
+        let t = &code[i];
+        if t.kind == Kind::Punct {
+            match t.text.as_str() {
+                "{" | "[" | "(" | "<" => depth += 1,
+                "}" | "]" | ")" | ">" => depth -= 1,
+                _ => {}
+            }
+            continue;
+        }
+        if depth == 1 && i + 1 <= close && is_p(&code[i + 1], ":") {
+            match t.kind {
+                Kind::Str => keys.push(t.value.clone().unwrap_or_default()),
+                Kind::Ident => keys.push(t.text.clone()),
+                _ => {}
+            }
+        }
+    }
+    Some(keys)
+}
+
+fn multiset_diff(expected: &[String], got: &[String]) -> Option<String> {
+    let mut e: BTreeMap<&String, i64> = BTreeMap::new();
+    for x in expected {
+        *e.entry(x).or_insert(0) += 1;
+    }
+    let mut g: BTreeMap<&String, i64> = BTreeMap::new();
+    for x in got {
+        *g.entry(x).or_insert(0) += 1;
+    }
+    if e == g {
+        return None;
+    }
+    let missing: Vec<&&String> = e.keys().filter(|k| !g.contains_key(**k)).collect();
+    let extra: Vec<&&String> = g.keys().filter(|k| !e.contains_key(**k)).collect();
+    let class = if !missing.is_empty() && !extra.is_empty() {
+        "names-differ"
+    } else if !missing.is_empty() {
+        "missing"
+    } else if !extra.is_empty() {
+        "extra"
+    } else {
+        "multiplicity"
+    };
+    Some(format!("{class}: expected {expected:?}, found {got:?}"))
+}
+
+pub fn lex_error_sig(lang: &str, pc: &ProgramCase, e: &LexError) -> String {
+    if pc.tags.contains("label:nul+digit") && e.class == "octal-or-decimal-escape" {
+        return format!("{lang}|lex-error|octal-escape-from-nul+digit");
+    }
+    format!("{lang}|lex-error|{}", e.class)
+}
+
+pub fn check_ts(ctx: &mut Ctx, pc: &ProgramCase, out: &str, input: &dyn Fn() -> Value) -> Option<Vec<Tok>> {
+    let toks = match lex_ts(out) {
+        Ok(t) => t,
+        Err(e) => {
+            ctx.violation(
+                &lex_error_sig("ts", pc, &e),
+                &format!("the TypeScript output does not lex: {} near {:?}", e.class, e.context),
+                input(),
+            );
+            return None;
+        }
+    };
+    let code = code_tokens(&toks);
+    let first_export = code.iter().position(|t| is_i(t, "export")).unwrap_or(code.len());
+    // imports: identifiers between `{` and `}` of the import lines
+    let mut imports: Vec<String> = Vec::new();
+    let mut i = 0;
+    while i < first_export {
+        if is_i(&code[i], "import") {
+            let mut j = i + 1;
+            while j < first_export && !is_i(&code[j], "from") {
+                if code[j].kind == Kind::Ident && code[j].text != "type" {
+                    imports.push(code[j].text.clone());
+                }
+                j += 1;
+            }
+            i = j;
+        }
+        i += 1;
+    }
+    let mut defined: Vec<String> = Vec::new();
+    for i in first_export..code.len() {
+        if is_i(&code[i], "export") && i + 2 < code.len() && (is_i(&code[i + 1], "type") || is_i(&code[i + 1], "interface")) {
+            if code[i + 2].kind == Kind::Ident {
+                defined.push(code[i + 2].text.clone());
+            }
+        }
+    }
+    let d = dups(&defined);
+    if !d.is_empty() {
+        let sig = if d.iter().any(|x| x == "_SERVICE") {
+            "ts|duplicate-definition|_SERVICE"
+        } else if pc.tags.contains("def:js-keyword+escaped-twin") {
+            "ts|duplicate-definition|escaped-keyword-collides-with-definition"
+        } else {
+            "ts|duplicate-definition"
+        };
+        ctx.violation(
+            sig,
+            &format!("the TypeScript output defines {d:?} more than once (distinct source definitions map to one name)"),
+            input(),
+        );
+    }
+    for n in &defined {
+        if imports.contains(n) {
+            ctx.violation(
+                "ts|definition-collides-with-import",
+                &format!("the output both imports and defines `{n}`; references to the imported name now denote the definition"),
+                input(),
+            );
+        }
+    }
+    // references
+    let mut undefined: BTreeSet<String> = BTreeSet::new();
+    let mut i = first_export;
+    while i < code.len() {
+        let t = &code[i];
+        if is_i(t, "export") && i + 2 < code.len() && is_i(&code[i + 1], "declare") {
+            // fixed trailer: `export declare const x: …;`
+            while i < code.len() && !is_p(&code[i], ";") {
+                i += 1;
+            }
+            i += 1;
+            continue;
+        }
+        if t.kind == Kind::Ident {
+            let prev = if i > 0 { Some(&code[i - 1]) } else { None };
+            let next = code.get(i + 1);
+            let after_extends = prev.map(|p| is_i(p, "extends")).unwrap_or(false);
+            let def_site = prev.map(|p| is_i(p, "type") || is_i(p, "interface")).unwrap_or(false)
+                && i >= 2
+                && is_i(&code[i - 2], "export");
+            let key = next.map(|n| is_p(n, ":")).unwrap_or(false);
+            if after_extends {
+                if !defined.contains(&t.text) {
+                    undefined.insert(t.text.clone());
+                }
+            } else if def_site || key || TS_KEYWORDS.contains(&t.text.as_str()) || TS_BUILTINS.contains(&t.text.as_str()) {
+                // not a reference
+            } else if !defined.contains(&t.text) && !imports.contains(&t.text) {
+                undefined.insert(t.text.clone());
+            }
+        }
+        i += 1;
+    }
+    if !undefined.is_empty() {
+        let kw = undefined.iter().any(|u| JS_KEYWORDS.contains(&u.as_str()));
+        let sig = if kw && pc.tags.contains("actor:var-js-keyword") {
+            "ts|undefined-type-reference|actor-reference-to-js-keyword-definition-unescaped".to_string()
+        } else {
+            "ts|undefined-type-reference".to_string()
+        };
+        ctx.violation(
+            &sig,
+            &format!("the TypeScript output references {undefined:?} but neither defines nor imports them"),
+            input(),
+        );
+    }
+    // service methods
+    if let Some(ms) = pc.methods() {
+        let expected: Vec<String> = ms.iter().map(|m| m.0.clone()).collect();
+        let pos = (0..code.len())
+            .rev()
+            .find(|&i| is_i(&code[i], "_SERVICE") && i >= 2 && is_i(&code[i - 1], "interface") && is_i(&code[i - 2], "export"));
+        match pos {
+            None => ctx.violation("ts|no-_SERVICE-interface", "program has a main service but the output has no `export interface _SERVICE`", input()),
+            Some(p) => {
+                let mut block_open = None;
+                if code.get(p + 1).map(|t| is_p(t, "{")).unwrap_or(false) {
+                    block_open = Some(p + 1);
+                } else if code.get(p + 1).map(|t| is_i(t, "extends")).unwrap_or(false) {
+                    // follow the named type through aliases
+                    let mut name = code.get(p + 2).map(|t| t.text.clone()).unwrap_or_default();
+                    for _ in 0..12 {
+                        let def = (first_export..code.len()).find(|&i| {
+                            is_i(&code[i], "export")
+                                && i + 2 < code.len()
+                                && code[i + 2].kind == Kind::Ident
+                                && code[i + 2].text == name
+                                && (is_i(&code[i + 1], "type") || is_i(&code[i + 1], "interface"))
+                        });
+                        let Some(di) = def else { break };
+                        if is_i(&code[di + 1], "interface") {
+                            if code.get(di + 3).map(|t| is_p(t, "{")).unwrap_or(false) {
+                                block_open = Some(di + 3);
+                            }
+                            break;
+                        }
+                        // export type X = Y ;
+                        if code.get(di + 3).map(|t| is_p(t, "=")).unwrap_or(false)
+                            && code.get(di + 4).map(|t| t.kind == Kind::Ident).unwrap_or(false)
+                            && code.get(di + 5).map(|t| is_p(t, ";")).unwrap_or(false)
+                        {
+                            name = code[di + 4].text.clone();
+                        } else {
+                            break;
+                        }
+                    }
+                }
+                match block_open.and_then(|o| ts_block_keys(&code, o)) {
+                    Some(keys) => {
+                        if let Some(d) = multiset_diff(&expected, &keys) {
+                            let class = d.split(':').next().unwrap_or("").to_string();
+                            ctx.violation(
+                                &format!("ts|service-methods|{class}"),
+                                &format!("methods of the main service in the TypeScript output: {d}"),
+                                input(),
+                            );
+                        } else {
+                            ctx.count("agree:ts-methods");
+                        }
+                    }
+                    None => ctx.count("excluded:ts-service-type-not-resolved"),
+                }
+            }
+        }
+    }
+    ctx.count("checked:ts");
+    Some(code)
+}
+
+// ---------------------------------------------------------------------------------------------
+// Motoko structure
+
+const MO_KEYWORDS: &[&str] = &["module", "public", "type", "actor", "shared", "query", "composite", "async"];
+const MO_BUILTINS: &[&str] = &[
+    "Null", "Bool", "Nat", "Int", "Nat8", "Nat16", "Nat32", "Nat64", "Int8", "Int16", "Int32", "Int64", "Float32", "Float",
+    "Text", "Any", "None", "Principal", "Blob", "Char", "Error", "Region",
+];
+pub const MO_RESERVED: &[&str] = &[
+    "actor", "and", "async", "assert", "await", "break", "case", "catch", "class", "continue", "composite", "debug",
+    "debug_show", "else", "false", "flexible", "for", "from_candid", "func", "if", "in", "import", "module", "not", "null",
+    "object", "or", "label", "let", "loop", "private", "public", "query", "return", "shared", "stable", "switch", "system",
+    "try", "throw", "to_candid", "true", "type", "var", "while", "with",
+];
+
+/// the identifier the Motoko binding is documented to use for a Candid method name
+pub fn mo_method_ident(m: &str) -> String {
+    if MO_RESERVED.contains(&m) || m.ends_with('_') {
+        format!("{m}_")
+    } else {
+        m.to_string()
+    }
+}
+
+/// number of syntactic references to definition `i` in the program (definitions, service, init arguments)
+fn model_ref_count(pc: &ProgramCase, i: usize) -> usize {
+    fn go(t: &RType, i: usize) -> usize {
+        match t {
+            RType::Ref(j) => (*j == i) as usize,
+            RType::Opt(t) | RType::Vec(t) => go(t, i),
+            RType::Record(fs) | RType::Variant(fs) => fs.iter().map(|f| go(&f.1, i)).sum(),
+            RType::Func { args, rets, .. } => args.iter().chain(rets.iter()).map(|t| go(t, i)).sum(),
+            RType::Service(ms) => ms.iter().map(|m| go(&m.1, i)).sum(),
+            _ => 0,
+        }
+    }
+    pc.model_env.0.iter().map(|t| go(t, i)).sum::<usize>()
+        + pc.service.as_ref().map(|t| go(t, i)).unwrap_or(0)
+        + pc.init.iter().flatten().map(|t| go(t, i)).sum::<usize>()
+}
+
+fn mo_block_keys(code: &[Tok], open: usize) -> Option<Vec<String>> {
+    let close = matching(code, open, "{", "}")?;
+    let mut keys = Vec::new();
+    let mut depth = 0i32;
+    for i in open..=close {
+        let t = &code[i];
+        if t.kind == Kind::Punct {
+            match t.text.as_str() {
+                "{" | "[" | "(" => depth += 1,
+                "}" | "]" | ")" => depth -= 1,
+                _ => {}
+            }
+            continue;
+        }
+        if depth == 1 && t.kind == Kind::Ident && i + 1 <= close && is_p(&code[i + 1], ":") {
+            let tag = i > 0 && is_p(&code[i - 1], "#");
+            if !tag {
+                keys.push(t.text.clone());
+            }
+        }
+    }
+    Some(keys)
+}
+
+pub fn check_motoko(ctx: &mut Ctx, pc: &ProgramCase, out: &str, input: &dyn Fn() -> Value) -> Option<Vec<Tok>> {
+    let toks = match lex_motoko(out) {
+        Ok(t) => t,
+        Err(e) => {
+            ctx.violation(
+                &lex_error_sig("motoko", pc, &e),
+                &format!("the Motoko output does not lex: {} near {:?}", e.class, e.context),
+                input(),
+            );
+            return None;
+        }
+    };
+    let code = code_tokens(&toks);
+    let mut defined: Vec<String> = Vec::new();
+    for i in 1..code.len() {
+        if is_i(&code[i - 1], "type") && code[i].kind == Kind::Ident && code.get(i + 1).map(|t| is_p(t, "=")).unwrap_or(false) {
+            defined.push(code[i].text.clone());
+        }
+    }
+    let d = dups(&defined);
+    if !d.is_empty() {
+        let sig = if d.iter().any(|x| x == "Self") {
+            "motoko|duplicate-definition|Self"
+        } else {
+            "motoko|duplicate-definition"
+        };
+        ctx.violation(sig, &format!("the Motoko output defines {d:?} more than once"), input());
+    }
+    let mut undefined: BTreeSet<String> = BTreeSet::new();
+    let mut ref_counts: BTreeMap<String, usize> = BTreeMap::new();
+    for i in 0..code.len() {
+        let t = &code[i];
+        if t.kind != Kind::Ident {
+            continue;
+        }
+        let prev = if i > 0 { Some(&code[i - 1]) } else { None };
+        let next = code.get(i + 1);
+        if prev.map(|p| is_i(p, "type") || is_p(p, "#")).unwrap_or(false) {
+            continue;
+        }
+        if next.map(|n| is_p(n, ":")).unwrap_or(false) {
+            continue;
+        }
+        *ref_counts.entry(t.text.clone()).or_insert(0) += 1;
+        if MO_KEYWORDS.contains(&t.text.as_str()) || MO_BUILTINS.contains(&t.text.as_str()) {
+            continue;
+        }
+        if !defined.contains(&t.text) {
+            undefined.insert(t.text.clone());
+        }
+    }
+    // a definition named like a Motoko builtin type the binding also uses for a Candid primitive: the output then
+    // mentions the name more often than the program refers to the definition, and those extra mentions (meant as
+    // the primitive) denote the definition
+    for n in &defined {
+        if !MO_BUILTINS.contains(&n.as_str()) {
+            continue;
+        }
+        let Some(i) = pc.def_names.iter().position(|d| d == n) else { continue };
+        let in_model = model_ref_count(pc, i);
+        let in_output = ref_counts.get(n).cloned().unwrap_or(0);
+        if in_output > in_model {
+            ctx.violation(
+                "motoko|definition-shadows-builtin-type-used-by-the-binding",
+                &format!(
+                    "the output has a definition `{n}` and uses `{n}` {in_output} times in type position, but the program refers to that \
+                     definition only {in_model} times: the other uses stand for the Candid primitive and now denote the definition"
+                ),
+                input(),
+            );
+        }
+    }
+    if !undefined.is_empty() {
+        ctx.violation(
+            "motoko|undefined-type-reference",
+            &format!("the Motoko output references {undefined:?} but does not define them"),
+            input(),
+        );
+    }
+    if out.contains("Float32") {
+        ctx.count("cover:motoko-float32");
+    }
+    if let Some(ms) = pc.methods() {
+        let expected: Vec<String> = ms.iter().map(|m| mo_method_ident(&m.0)).collect();
+        // last `type Self =`
+        let pos = (2..code.len())
+            .rev()
+            .find(|&i| is_p(&code[i], "=") && is_i(&code[i - 1], "Self") && is_i(&code[i - 2], "type"));
+        match pos {
+            None => ctx.violation("motoko|no-Self-type", "program has a main service but the output has no `type Self`", input()),
+            Some(p) => {
+                // the service part follows the last depth-0 `-> async` (service constructor) if any
+                let mut start = p + 1;
+                let mut depth = 0i32;
+                let mut i = p + 1;
+                while i < code.len() {
+                    let t = &code[i];
+                    if t.kind == Kind::Punct {
+                        match t.text.as_str() {
+                            "{" | "[" | "(" => depth += 1,
+                            "}" | "]" | ")" => depth -= 1,
+                            _ => {}
+                        }
+                        if depth < 0 {
+                            break;
+                        }
+                        if depth == 0 && t.text == "->" && code.get(i + 1).map(|n| is_i(n, "async")).unwrap_or(false) {
+                            start = i + 2;
+                        }
+                    }
+                    i += 1;
+                }
+                let mut block_open = None;
+                if code.get(start).map(|t| is_i(t, "actor")).unwrap_or(false)
+                    && code.get(start + 1).map(|t| is_p(t, "{")).unwrap_or(false)
+                {
+                    block_open = Some(start + 1);
+                } else if code.get(start).map(|t| t.kind == Kind::Ident).unwrap_or(false) {
+                    let mut name = code[start].text.clone();
+                    for _ in 0..12 {
+                        let def = (1..code.len()).find(|&i| {
+                            is_i(&code[i - 1], "type")
+                                && code[i].kind == Kind::Ident
+                                && code[i].text == name
+                                && code.get(i + 1).map(|t| is_p(t, "=")).unwrap_or(false)
+                        });
+                        let Some(di) = def else { break };
+                        if code.get(di + 2).map(|t| is_i(t, "actor")).unwrap_or(false)
+                            && code.get(di + 3).map(|t| is_p(t, "{")).unwrap_or(false)
+                        {
+                            block_open = Some(di + 3);
+                            break;
+                        }
+                        if code.get(di + 2).map(|t| t.kind == Kind::Ident).unwrap_or(false)
+                            && code.get(di + 3).map(|t| is_p(t, ";")).unwrap_or(false)
+                        {
+                            name = code[di + 2].text.clone();
+                        } else {
+                            break;
+                        }
+                    }
+                }
+                match block_open.and_then(|o| mo_block_keys(&code, o)) {
+                    Some(keys) => {
+                        if let Some(d) = multiset_diff(&expected, &keys) {
+                            let class = d.split(':').next().unwrap_or("").to_string();
+                            ctx.violation(
+                                &format!("motoko|service-methods|{class}"),
+                                &format!("methods of the main service in the Motoko output: {d}"),
+                                input(),
+                            );
+                        } else {
+                            ctx.count("agree:motoko-methods");
+                        }
+                    }
+                    None => ctx.count("excluded:motoko-service-type-not-resolved"),
+                }
+            }
+        }
+    }
+    ctx.count("checked:motoko");
+    Some(code)
+}
+
+// ---------------------------------------------------------------------------------------------
+// Rust structure
+
+pub fn check_rust(ctx: &mut Ctx, pc: &ProgramCase, target: &str, out: &str, input: &dyn Fn() -> Value) {
+    // define_service! gets method names as string literals: a name that needs escaping must not appear raw
+    for m in &pc.method_labels {
+        if m.chars().any(|c| c == '"' || c == '\\' || c == '\r') && out.contains(&format!("\"{m}\" :")) {
+            ctx.violation(
+                "rust|define_service-method-name-not-escaped",
+                &format!(
+                    "method name {m:?} of a service type is copied verbatim between double quotes into the Rust output ({target}); \
+                     expected an escaped Rust string literal"
+                ),
+                input(),
+            );
+            return;
+        }
+    }
+    let facts = match analyze_rust(out) {
+        Ok(f) => f,
+        Err(e) => {
+            let class: String = e.split(" at line").next().unwrap_or("").chars().filter(|c| !c.is_ascii_digit()).take(60).collect();
+            let cr_doc = out.split('\n').any(|l| l.trim_start().starts_with("///") && l.trim_end_matches('\r').contains('\r'));
+            let class = match (target, stub_metadata_problem(out)) {
+                _ if cr_doc => "bare-CR-in-doc-comment".to_string(),
+                ("stub", Some(p)) => format!("stub-metadata|{p}"),
+                _ => class,
+            };
+            let sig = if cr_doc { "rust|bare-CR-in-doc-comment".to_string() } else { format!("rust|does-not-parse|{class}") };
+            ctx.violation(
+                &sig,
+                &format!("syn cannot parse the Rust output ({target}): {e}"),
+                input(),
+            );
+            return;
+        }
+    };
+    let undefined: Vec<&String> = facts
+        .type_refs
+        .iter()
+        .filter(|r| !facts.items.contains(r) && !RUST_KNOWN.contains(&r.as_str()))
+        .filter(|r| !(target == "agent" && r.as_str() == "T"))
+        .collect();
+    if !undefined.is_empty() {
+        ctx.violation(
+            "rust|undefined-type-reference",
+            &format!("the Rust output ({target}) references {undefined:?} without defining them"),
+            input(),
+        );
+    }
+    if let Some(ms) = pc.methods() {
+        let n = ms.len();
+        // methods are fns of the impl block (call / agent) or top-level fns (stub, plus `init` when there are init args)
+        let init_fn = target == "stub" && pc.init.as_ref().map(|i| !i.is_empty()).unwrap_or(false);
+        if facts.fns.len() != n + init_fn as usize {
+            ctx.violation(
+                &format!("rust|method-count|{target}"),
+                &format!("the service has {n} methods, the Rust output ({target}) has fns {:?}", facts.fns),
+                input(),
+            );
+        } else {
+            let d = dups(&facts.fns);
+            if !d.is_empty() {
+                let sig = if init_fn && d == vec!["init".to_string()] {
+                    "rust|stub-method-named-init-collides-with-init-fn"
+                } else {
+                    "rust|duplicate-method-fn"
+                };
+                ctx.violation(
+                    sig,
+                    &format!("distinct service methods map to the same Rust fn name {d:?} ({target})"),
+                    input(),
+                );
+            }
+            if target != "stub" {
+                let expected: Vec<String> = ms.iter().map(|m| m.0.clone()).collect();
+                if let Some(d) = multiset_diff(&expected, &facts.fn_literals) {
+                    let class = d.split(':').next().unwrap_or("").to_string();
+                    ctx.violation(
+                        &format!("rust|method-name-literals|{class}"),
+                        &format!("method names passed to the call in the Rust output ({target}): {d}"),
+                        input(),
+                    );
+                } else {
+                    ctx.count("agree:rust-methods");
+                }
+            }
+        }
+    }
+    for r in &facts.renames {
+        if !pc.labels.contains(r) {
+            ctx.violation(
+                "rust|serde-rename-is-not-a-label",
+                &format!("#[serde(rename = {r:?})] does not spell any label of the program"),
+                input(),
+            );
+            break;
+        }
+    }
+    ctx.count("checked:rust");
+}
+
+// ---------------------------------------------------------------------------------------------
+
+pub struct C19Js {
+    pub pc: ProgramCase,
+    pub js: String,
+}
+
+fn judge_js(ctx: &mut Ctx, it: &C19Js, r: &JsResult) {
+    ctx.count("checked:js");
+    if let JsResult::Failed { stage, name, message } = r {
+        ctx.violation(
+            &load_error_sig(&it.pc, &it.js, stage, name, message),
+            &format!("node could not evaluate the JavaScript output (stage {stage}): {name}: {message}"),
+            json!({"origin": it.pc.origin, "did": clip(&it.pc.text, 6000), "js": clip(&it.js, 6000)}),
+        );
+    }
+}
+
+/// All per-program checks. `quick_rust`: only the default Rust target.
+pub fn check_program(
+    ctx: &mut Ctx,
+    batch: &mut JsBatch<C19Js>,
+    node: bool,
+    pc: &ProgramCase,
+    rust_targets: &[&str],
+) -> Option<(Checked, Outputs)> {
+    let ck = match check_case(pc) {
+        Ok(c) => c,
+        Err(m) => {
+            ctx.count(&format!("excluded:not-accepted:{}", reject_class(&m)));
+            if std::env::var("VERIF_DEBUG_REJECT").is_ok() {
+                eprintln!("REJECTED case {} ({m}):\n{}\n", ctx.case, clip(&pc.text, 1500));
+            }
+            return None;
+        }
+    };
+    let outs = generate_all(ctx, pc, &ck, rust_targets);
+    let input = |lang: &str, out: &str| {
+        let o = clip(out, 6000);
+        let d = clip(&pc.text, 6000);
+        let origin = pc.origin.clone();
+        let lang = lang.to_string();
+        move || json!({"origin": origin, "did": d, lang.clone(): o})
+    };
+    if let Some(js) = &outs.js {
+        if node {
+            batch.push(ctx, js, pc.service.is_none(), C19Js { pc: pc.clone(), js: js.clone() });
+        }
+    }
+    if let Some(ts) = &outs.ts {
+        check_ts(ctx, pc, ts, &input("ts", ts));
+    }
+    if let Some(mo) = &outs.mo {
+        check_motoko(ctx, pc, mo, &input("motoko", mo));
+    }
+    for (t, src) in &outs.rs {
+        check_rust(ctx, pc, t, src, &input("rust", src));
+    }
+    for t in &pc.tags {
+        ctx.count(&format!("cover:{t}"));
+    }
+    ctx.nontrivial(hash_str(&pc.text));
+    ctx.sample(|| json!({"origin": pc.origin, "did": clip(&pc.text, 1500)}));
+    Some((ck, outs))
+}
+
+// ---------------------------------------------------------------------------------------------
+// differentials
+
+fn compare_tokens(ctx: &mut Ctx, lang: &str, what: &str, a: &[Tok], b: &[Tok], input: &dyn Fn() -> Value) {
+    match first_difference(a, b) {
+        None => ctx.count(&format!("agree:{what}:{lang}")),
+        Some(at) => ctx.violation(
+            &format!("{lang}|{what}-changes-tokens"),
+            &format!(
+                "non-comment token streams differ at token {at}: reference `{}` vs hostile `{}`",
+                show_around(a, at),
+                show_around(b, at)
+            ),
+            input(),
+        ),
+    }
+}
+
+/// Same program with and without (hostile) doc comments: code tokens of every output must be identical.
+fn docs_differential(ctx: &mut Ctx, rng: &mut Rng) {
+    let cfg = GenCfg {
+        docs: DocMode::None,
+        labels: NameMode::Mixed,
+        defs: NameMode::Plain,
+        ident_methods: true,
+        ..GenCfg::default()
+    };
+    let plain = gen_aprog(rng, &cfg);
+    let hostile = hostile_docs(&plain, rng);
+    let bits = rng.next();
+    let a = case_of(&plain, bits, "adhoc:docs-differential:plain");
+    let b = case_of(&hostile, bits, "adhoc:docs-differential:hostile");
+    docs_differential_pair(ctx, a, b);
+}
+
+/// The same for a program of `crate::prog`, printed once without and once with its (hostile) doc comments.
+fn prog_docs_differential(ctx: &mut Ctx, rng: &mut Rng) {
+    use crate::prog::{gen_prog, print_prog, DocKind, PrintCfg, ProgCfg};
+    let mut cfg = ProgCfg::random(rng);
+    cfg.docs = DocKind::Hostile;
+    cfg.hostile_names = false;
+    cfg.motoko_compat = rng.chance(2, 3);
+    let p = gen_prog(rng, &cfg);
+    let ta = print_prog(&p, &PrintCfg::plain().without_docs(), rng);
+    let tb = print_prog(&p, &PrintCfg::plain(), rng);
+    let (Ok(a), Ok(b)) = (
+        case_from_prog(&p, ta, "prog:docs-differential:plain"),
+        case_from_prog(&p, tb, "prog:docs-differential:hostile"),
+    ) else {
+        ctx.count("excluded:prog-model-failed");
+        return;
+    };
+    if a.text == b.text {
+        ctx.count("excluded:no-docs-drawn");
+        return;
+    }
+    docs_differential_pair(ctx, a, b);
+}
+
+fn docs_differential_pair(ctx: &mut Ctx, a: ProgramCase, b: ProgramCase) {
+    let (Ok(ca), Ok(cb)) = (check_case(&a), check_case(&b)) else {
+        ctx.count("excluded:not-accepted");
+        return;
+    };
+    let input = || json!({"did_plain": clip(&a.text, 4000), "did_hostile": clip(&b.text, 6000)});
+    let gen = |ctx: &mut Ctx, pc: &ProgramCase, ck: &Checked| generate_all(ctx, pc, ck, &["canister_call", "stub"]);
+    let oa = gen(ctx, &a, &ca);
+    let ob = gen(ctx, &b, &cb);
+    if let (Some(x), Some(y)) = (&oa.js, &ob.js) {
+        if x != y {
+            ctx.violation("js|docs-change-output", "doc comments changed the JavaScript output", input());
+        } else {
+            ctx.count("agree:docs:js");
+        }
+    }
+    if let (Some(x), Some(y)) = (&oa.ts, &ob.ts) {
+        let inp = || {
+            let mut v = input();
+            v["ts_hostile"] = json!(clip(y, 6000));
+            v
+        };
+        match (lex_ts(x), lex_ts(y)) {
+            (Ok(tx), Ok(ty)) => compare_tokens(ctx, "ts", "docs", &ts_comparable(&tx), &ts_comparable(&ty), &inp),
+            (Ok(_), Err(e)) => ctx.violation(
+                &format!("ts|docs-break-lexing|{}", e.class),
+                &format!("with doc comments the TypeScript output no longer lexes: {} near {:?}", e.class, e.context),
+                inp(),
+            ),
+            _ => ctx.count("excluded:reference-output-does-not-lex:ts"),
+        }
+    }
+    if let (Some(x), Some(y)) = (&oa.mo, &ob.mo) {
+        let inp = || {
+            let mut v = input();
+            v["motoko_hostile"] = json!(clip(y, 6000));
+            v
+        };
+        match (lex_motoko(x), lex_motoko(y)) {
+            (Ok(tx), Ok(ty)) => compare_tokens(ctx, "motoko", "docs", &motoko_comparable(&tx), &motoko_comparable(&ty), &inp),
+            (Ok(_), Err(e)) => ctx.violation(
+                &format!("motoko|docs-break-lexing|{}", e.class),
+                &format!("with doc comments the Motoko output no longer lexes: {} near {:?}", e.class, e.context),
+                inp(),
+            ),
+            _ => ctx.count("excluded:reference-output-does-not-lex:motoko"),
+        }
+    }
+    for ((t, x), (_, y)) in oa.rs.iter().zip(ob.rs.iter()) {
+        let inp = || {
+            let mut v = input();
+            v["rust_hostile"] = json!(clip(y, 6000));
+            v
+        };
+        match (rust_code_tokens(x), rust_code_tokens(y)) {
+            (Ok(tx), Ok(ty)) => {
+                if tx == ty {
+                    ctx.count("agree:docs:rust");
+                } else {
+                    let at = tx.iter().zip(ty.iter()).position(|(p, q)| p != q).unwrap_or(tx.len().min(ty.len()));
+                    let show = |v: &[String]| v[at.saturating_sub(4)..(at + 5).min(v.len())].join(" ");
+                    ctx.violation(
+                        &format!("rust|docs-changes-tokens|{t}"),
+                        &format!("token streams differ at {at}: `{}` vs `{}`", show(&tx), show(&ty)),
+                        inp(),
+                    );
+                }
+            }
+            (Ok(_), Err(e)) => {
+                let cr = y.contains('\r');
+                ctx.violation(
+                    if cr { "rust|bare-CR-in-doc-comment" } else { "rust|docs-break-lexing|other" },
+                    &format!("with doc comments the Rust output ({t}) no longer tokenizes: {e}"),
+                    inp(),
+                );
+            }
+            _ => ctx.count("excluded:reference-output-does-not-lex:rust"),
+        }
+    }
+    ctx.nontrivial(hash_str(&b.text));
+    ctx.sample(|| json!({"origin": b.origin, "did": clip(&b.text, 1500)}));
+}
+
+fn placeholder_table() -> Vec<(u32, String)> {
+    let mut v: Vec<(u32, String)> = (0..4096).map(|i| format!("zq{i}w")).map(|s| (label_hash(&s), s)).collect();
+    v.sort();
+    v
+}
+
+/// Replace every label that is not a plain identifier by an identifier placeholder whose hash keeps the
+/// field order; all method names of a service with such a name become `zm<k>x` in the same order.
+/// Returns the twin and the map placeholder -> original.
+fn benign_twin(p: &AProg, table: &[(u32, String)]) -> Option<(AProg, BTreeMap<String, String>)> {
+    let mut map: BTreeMap<String, String> = BTreeMap::new();
+    let mut used: BTreeSet<String> = BTreeSet::new();
+    fn fields(fs: &[AField], table: &[(u32, String)], map: &mut BTreeMap<String, String>, used: &mut BTreeSet<String>) -> Option<Vec<AField>> {
+        let ids = field_ids(fs)?;
+        let hostile = |f: &AField| matches!(&f.lab, Lab::Named(s) if !is_ident(s));
+        // positional fields after a renamed field would change their id
+        let mut seen_renamed = false;
+        for f in fs {
+            if hostile(f) {
+                seen_renamed = true;
+            } else if seen_renamed && f.lab == Lab::Pos {
+                return None;
+            }
+        }
+        let mut order: Vec<usize> = (0..fs.len()).collect();
+        order.sort_by_key(|i| ids[*i]);
+        let mut new_labs: Vec<Lab> = fs.iter().map(|f| f.lab.clone()).collect();
+        let mut prev: Option<u32> = None;
+        for (k, &i) in order.iter().enumerate() {
+            if hostile(&fs[i]) {
+                // next fixed id
+                let bound = order[k + 1..].iter().find(|j| !hostile(&fs[**j])).map(|j| ids[*j]);
+                let start = match prev {
+                    None => 0,
+                    Some(p) => table.partition_point(|e| e.0 <= p),
+                };
+                let cand = table[start..].iter().find(|e| !used.contains(&e.1))?;
+                if let Some(b) = bound {
+                    if cand.0 >= b {
+                        return None;
+                    }
+                }
+                used.insert(cand.1.clone());
+                if let Lab::Named(orig) = &fs[i].lab {
+                    map.insert(cand.1.clone(), orig.clone());
+                }
+                new_labs[i] = Lab::Named(cand.1.clone());
+                prev = Some(cand.0);
+            } else {
+                prev = Some(ids[i]);
+            }
+        }
+        let mut out = Vec::new();
+        for (i, f) in fs.iter().enumerate() {
+            out.push(AField {
+                lab: new_labs[i].clone(),
+                ty: ty(&f.ty, table, map, used)?,
+                docs: f.docs.clone(),
+                short: f.short,
+            });
+        }
+        // tuple-ness must not change: ids of the twin
+        let ids2 = field_ids(&out)?;
+        let mut a = ids.clone();
+        a.sort();
+        let mut b = ids2.clone();
+        b.sort();
+        let tup = |v: &Vec<u32>| !v.is_empty() && v.iter().enumerate().all(|(i, x)| *x == i as u32);
+        if tup(&a) != tup(&b) {
+            return None;
+        }
+        Some(out)
+    }
+    fn func(f: &AFunc, table: &[(u32, String)], map: &mut BTreeMap<String, String>, used: &mut BTreeSet<String>) -> Option<AFunc> {
+        let mut args = Vec::new();
+        for (n, t) in &f.args {
+            args.push((n.clone(), ty(t, table, map, used)?));
+        }
+        let mut rets = Vec::new();
+        for (n, t) in &f.rets {
+            rets.push((n.clone(), ty(t, table, map, used)?));
+        }
+        Some(AFunc { args, rets, mode: f.mode })
+    }
+    fn meths(ms: &[AMeth], table: &[(u32, String)], map: &mut BTreeMap<String, String>, used: &mut BTreeSet<String>) -> Option<Vec<AMeth>> {
+        let rename = ms.iter().any(|m| !is_ident(&m.name));
+        let mut sorted: Vec<&String> = ms.iter().map(|m| &m.name).collect();
+        sorted.sort_by(|a, b| a.as_bytes().cmp(b.as_bytes()));
+        let mut out = Vec::new();
+        for m in ms {
+            let name = if rename {
+                let k = sorted.iter().position(|s| **s == m.name).unwrap();
+                let p = format!("zm{k:03}x{}", map.len());
+                map.insert(p.clone(), m.name.clone());
+                p
+            } else {
+                m.name.clone()
+            };
+            out.push(AMeth {
+                name,
+                ty: match &m.ty {
+                    AMethTy::Func(f) => AMethTy::Func(func(f, table, map, used)?),
+                    v => v.clone(),
+                },
+                docs: m.docs.clone(),
+            });
+        }
+        Some(out)
+    }
+    fn ty(t: &ATy, table: &[(u32, String)], map: &mut BTreeMap<String, String>, used: &mut BTreeSet<String>) -> Option<ATy> {
+        Some(match t {
+            ATy::Opt(t) => ATy::Opt(Box::new(ty(t, table, map, used)?)),
+            ATy::Vec(t) => ATy::Vec(Box::new(ty(t, table, map, used)?)),
+            ATy::Record(fs) => ATy::Record(fields(fs, table, map, used)?),
+            ATy::Variant(fs) => ATy::Variant(fields(fs, table, map, used)?),
+            ATy::Func(f) => ATy::Func(func(f, table, map, used)?),
+            ATy::Service(ms) => ATy::Service(meths(ms, table, map, used)?),
+            t => t.clone(),
+        })
+    }
+    let mut defs = Vec::new();
+    for d in &p.defs {
+        defs.push(ADef {
+            name: d.name.clone(),
+            ty: ty(&d.ty, table, &mut map, &mut used)?,
+            docs: d.docs.clone(),
+        });
+    }
+    let actor = match &p.actor {
+        None => None,
+        Some(a) => {
+            let init = match &a.init {
+                None => None,
+                Some(xs) => {
+                    let mut v = Vec::new();
+                    for (n, t) in xs {
+                        v.push((n.clone(), ty(t, table, &mut map, &mut used)?));
+                    }
+                    Some(v)
+                }
+            };
+            Some(AActor {
+                docs: a.docs.clone(),
+                name: a.name.clone(),
+                init,
+                body: match &a.body {
+                    AActorBody::Service(ms) => AActorBody::Service(meths(ms, table, &mut map, &mut used)?),
+                    v => v.clone(),
+                },
+            })
+        }
+    };
+    Some((AProg { defs, actor }, map))
+}
+
+/// Hostile names against a twin with benign placeholders: token kinds identical, only the payload of
+/// the tokens standing for a replaced name may differ (and for TS it must decode to the original name).
+fn names_differential(ctx: &mut Ctx, rng: &mut Rng, table: &[(u32, String)]) {
+    let ident_methods = rng.chance(1, 2);
+    let cfg = GenCfg {
+        docs: DocMode::None,
+        labels: NameMode::Hostile,
+        defs: NameMode::Plain,
+        ident_methods,
+        max_defs: 4,
+        ..GenCfg::default()
+    };
+    let hostile = gen_aprog(rng, &cfg);
+    let Some((twin, map)) = benign_twin(&hostile, table) else {
+        ctx.count("excluded:no-order-preserving-twin");
+        return;
+    };
+    if map.is_empty() {
+        ctx.count("excluded:no-hostile-name-drawn");
+        return;
+    }
+    let bits = rng.next();
+    let a = case_of(&twin, bits, "adhoc:names-differential:twin");
+    let b = case_of(&hostile, bits, "adhoc:names-differential:hostile");
+    let (Ok(ca), Ok(cb)) = (check_case(&a), check_case(&b)) else {
+        ctx.count("excluded:not-accepted");
+        return;
+    };
+    let input = || json!({"did_twin": clip(&a.text, 4000), "did_hostile": clip(&b.text, 6000), "placeholders": map});
+    // TypeScript
+    let ta = catch(|| typescript::compile(&ca.env, &ca.actor, &ca.prog));
+    let tb = catch(|| typescript::compile(&cb.env, &cb.actor, &cb.prog));
+    if let (Ok(x), Ok(y)) = (&ta, &tb) {
+        let inp = || {
+            let mut v = input();
+            v["ts_hostile"] = json!(clip(y, 6000));
+            v
+        };
+        match (lex_ts(x), lex_ts(y)) {
+            (Ok(tx), Ok(ty)) => {
+                let (cx, cy) = (ts_comparable(&tx), ts_comparable(&ty));
+                let mut bad: Option<(usize, &str)> = None;
+                if cx.len() != cy.len() {
+                    bad = Some((cx.len().min(cy.len()), "token-count"));
+                } else {
+                    for (i, (p, q)) in cx.iter().zip(cy.iter()).enumerate() {
+                        if p.kind != q.kind {
+                            bad = Some((i, "token-kind"));
+                            break;
+                        }
+                        if p.kind == Kind::Str {
+                            let pv = p.value.clone().unwrap_or_default();
+                            let want = map.get(&pv).cloned().unwrap_or(pv);
+                            if q.value.as_deref() != Some(want.as_str()) {
+                                bad = Some((i, "string-payload"));
+                                break;
+                            }
+                        } else if p.text != q.text {
+                            bad = Some((i, "token-text"));
+                            break;
+                        }
+                    }
+                }
+                match bad {
+                    None => ctx.count("agree:names:ts"),
+                    Some((at, class)) => ctx.violation(
+                        &format!("ts|names-change-tokens|{class}"),
+                        &format!(
+                            "token streams differ at {at}: twin `{}` vs hostile `{}`",
+                            show_around(&cx, at),
+                            show_around(&cy, at)
+                        ),
+                        inp(),
+                    ),
+                }
+            }
+            (Ok(_), Err(e)) => ctx.violation(
+                &lex_error_sig("ts", &b, &e),
+                &format!("with hostile names the TypeScript output no longer lexes: {} near {:?}", e.class, e.context),
+                inp(),
+            ),
+            _ => ctx.count("excluded:reference-output-does-not-lex:ts"),
+        }
+    }
+    // Motoko (identifier method names only)
+    if motoko_applicable(&b) {
+        let ma = catch(|| motoko::compile(&ca.env, &ca.actor, &ca.prog));
+        let mb = catch(|| motoko::compile(&cb.env, &cb.actor, &cb.prog));
+        if let (Ok(x), Ok(y)) = (&ma, &mb) {
+            let inp = || {
+                let mut v = input();
+                v["motoko_hostile"] = json!(clip(y, 6000));
+                v
+            };
+            match (lex_motoko(x), lex_motoko(y)) {
+                (Ok(tx), Ok(ty)) => {
+                    let (cx, cy) = (motoko_comparable(&tx), motoko_comparable(&ty));
+                    let mut bad: Option<(usize, &str)> = None;
+                    if cx.len() != cy.len() {
+                        bad = Some((cx.len().min(cy.len()), "token-count"));
+                    } else {
+                        for (i, (p, q)) in cx.iter().zip(cy.iter()).enumerate() {
+                            if p.kind != q.kind {
+                                bad = Some((i, "token-kind"));
+                                break;
+                            }
+                            let placeholder = p.kind == Kind::Ident && map.contains_key(&p.text);
+                            if !placeholder && p.text != q.text {
+                                bad = Some((i, "token-text"));
+                                break;
+                            }
+                        }
+                    }
+                    match bad {
+                        None => ctx.count("agree:names:motoko"),
+                        Some((at, class)) => ctx.violation(
+                            &format!("motoko|names-change-tokens|{class}"),
+                            &format!(
+                                "token streams differ at {at}: twin `{}` vs hostile `{}`",
+                                show_around(&cx, at),
+                                show_around(&cy, at)
+                            ),
+                            inp(),
+                        ),
+                    }
+                }
+                (Ok(_), Err(e)) => ctx.violation(
+                    &lex_error_sig("motoko", &b, &e),
+                    &format!("with hostile names the Motoko output no longer lexes: {} near {:?}", e.class, e.context),
+                    inp(),
+                ),
+                _ => ctx.count("excluded:reference-output-does-not-lex:motoko"),
+            }
+        }
+    } else {
+        ctx.count("excluded:motoko-non-identifier-method-name");
+    }
+    for t in &b.tags {
+        ctx.count(&format!("cover:{t}"));
+    }
+    ctx.nontrivial(hash_str(&b.text));
+    ctx.sample(|| json!({"origin": b.origin, "did": clip(&b.text, 1500)}));
+}
+
+pub fn run(ctx: &mut Ctx) {
+    let node = node_available();
+    if !node {
+        ctx.count("inconclusive:node-missing");
+    }
+    let limit = if ctx.only.is_some() { 1 } else { 100 };
+    let mut batch: JsBatch<C19Js> = JsBatch::new(ctx, limit);
+    let all_targets: [&str; 3] = ["canister_call", "agent", "stub"];
+
+    let assets: Vec<ProgramCase> = asset_cases();
+    if !assets.is_empty() {
+        let saved = ctx.max_cases;
+        let n = assets.len() as u64;
+        ctx.max_cases = (n + ctx.nshards - 1) / ctx.nshards.max(1);
+        ctx.cases("assets", 1.0, |ctx, _rng| {
+            let local = ctx.case & ((1 << 40) - 1);
+            if let Some(pc) = assets.get(local as usize) {
+                check_program(ctx, &mut batch, node, pc, &all_targets);
+            }
+        });
+        ctx.max_cases = saved;
+        batch.flush(ctx, &mut judge_js);
+    }
+
+    let adhoc: [(&str, GenCfg); 3] = [
+        (
+            "adhoc-mixed",
+            GenCfg {
+                ident_methods: true,
+                ..GenCfg::default()
+            },
+        ),
+        (
+            "adhoc-keywords",
+            GenCfg {
+                labels: NameMode::Keywords,
+                defs: NameMode::Keywords,
+                ident_methods: true,
+                max_defs: 7,
+                ..GenCfg::default()
+            },
+        ),
+        (
+            "adhoc-hostile",
+            GenCfg {
+                labels: NameMode::Hostile,
+                defs: NameMode::Keywords,
+                docs: DocMode::Hostile,
+                ..GenCfg::default()
+            },
+        ),
+    ];
+    let table = placeholder_table();
+    // one family; the producer / differential is drawn per case (twentieths)
+    ctx.cases("generated", 1.0, |ctx, rng| {
+        let pick = rng.below(20);
+        match pick {
+            0..=8 => {
+                let (name, cfg) = match pick {
+                    0..=3 => &adhoc[0],
+                    4 | 5 => &adhoc[1],
+                    _ => &adhoc[2],
+                };
+                ctx.count(&format!("producer:{name}"));
+                let pc = gen_case(rng, cfg, &format!("adhoc:{name}"));
+                let targets: &[&str] = if rng.chance(1, 3) { &all_targets } else { &all_targets[..1] };
+                check_program(ctx, &mut batch, node, &pc, targets);
+            }
+            9..=13 => {
+                ctx.count("producer:prog-random");
+                let nul = rng.chance(1, 4);
+                match gen_prog_case(rng, &|c| c.nul_names = nul && c.hostile_names, "prog:random") {
+                    Some(pc) => {
+                        let targets: &[&str] = if rng.chance(1, 3) { &all_targets } else { &all_targets[..1] };
+                        check_program(ctx, &mut batch, node, &pc, targets);
+                    }
+                    None => ctx.count("excluded:prog-model-failed"),
+                }
+            }
+            14 | 15 => {
+                ctx.count("producer:docs-differential");
+                docs_differential(ctx, rng)
+            }
+            16 | 17 => {
+                ctx.count("producer:prog-docs-differential");
+                prog_docs_differential(ctx, rng)
+            }
+            _ => {
+                ctx.count("producer:names-differential");
+                names_differential(ctx, rng, &table)
+            }
+        }
+        if batch.full() {
+            batch.flush(ctx, &mut judge_js);
+        }
+    });
+    batch.flush(ctx, &mut judge_js);
+    if batch.dead {
+        ctx.count("inconclusive:node-unusable");
+    }
+    let _ = std::fs::remove_dir_all(scratch_dir(ctx));
+}
